@@ -616,9 +616,11 @@ def in_kernel_sample(cases, summary, limit):
         if r is None or len(hx) > 600 or len(picked) >= limit:
             continue
         if c["fmt"] == "json":
-            # the float text oracle is not available inside Coq: no input that may hold a float token
+            # the float text oracle (fparse) is not available inside Coq, where the model runs with
+            # fparse = fun _ => None: leave out every input that may reach it — a float token, or an integer
+            # literal of 20 digits or more (from 2^64 upwards the model, like ugorji, reads it as a float)
             raw = bytes.fromhex(hx)
-            if " D" in r or r == "unsup" or any(ch in raw for ch in b".eE"):
+            if " D" in r or r == "unsup" or any(ch in raw for ch in b".eE") or re.search(rb"[0-9]{20}", raw):
                 continue
         try:
             picked.append((c, _coq_outcome(r, structs)))
